@@ -797,13 +797,13 @@ def stage_resp(ctx, side):
     # signer (content always matches the lattice); recorded, not a violation.
     l = 1
     k = 70
-    lat = [[(1 << k) if i == j else 0 for j in range(4)] for i in range(4)]
-    o = side.c(l, ["! 30 resp.sample 1 1 1 %s" % mat_hex(lat)])[0]
+    lat = [[(1 << (k + 1)) if i == j else 0 for j in range(4)] for i in range(4)]     # denom 2: the vectors are 2^k e_i
+    o = side.c(l, ["! 30 resp.sample 1 1 2 %s" % mat_hex(lat)])[0]
     parts = [x.strip() for x in o.split("|")]
     if len(parts) >= 1 and len(parts[0].split()) == 5:
         xw = [unhx(x) for x in parts[0].split()]
-        nn = xw[1] ** 2 + xw[2] ** 2 + PRIMES[l] * (xw[3] ** 2 + xw[4] ** 2)
-        ctx.coverage["fallback_unguarded_demo"] = dict(input="lattice 2^70*Z^4, content 1, level 1", log2_norm=nn.bit_length() - 1,
+        nn = (xw[1] ** 2 + xw[2] ** 2 + PRIMES[l] * (xw[3] ** 2 + xw[4] ** 2)) // (xw[0] ** 2)
+        ctx.coverage["fallback_unguarded_demo"] = dict(input="lattice 2^70*Z^4 (denom 2), content 1, level 1", log2_norm=nn.bit_length() - 1,
                                                        response_length=RESP[l], exceeds_bound=nn >= 2 ** RESP[l],
                                                        note="constructed (non-signer) input: fallback returns lll[.][0] with no norm test")
 
